@@ -301,7 +301,7 @@ class Oracle:
                 return ill()
             if name == "num" and not isinstance(out, (int, float)):
                 return ill()
-            if param:
+            if param and param.count(",") == 1:
                 self.evals["range"] += 1
                 lo, hi = param.split(",")
                 lo_ok = lo.strip() == "NONE" or out >= float(lo)
